@@ -72,7 +72,7 @@ Sub-checks (alphabet / oracle)
  grounded   every u in (A14 + {-inf, -0.0} + extreme letters)^d with at least one zero entry: F(u) == 0 exactly.
             Extreme letters: +-{1e-300, 1e-200, 1e-120, 1e-60, 1e-10, 1e10, 1e60, 1e120, 1e200, 1e300} (Clayton: those with
             theta |log10 |u|| <= 300, see exclusions).
- volume     every rectangle (a, b] with a_i < b_i, a_i, b_i in the coordinate alphabet, EXCEPT those whose upper ends are all
+ volume     every rectangle (a, b] with a_i < b_i (a_i == b_i and a_i = -inf: sub-check `degenerate`), a_i, b_i in the coordinate alphabet, EXCEPT those whose upper ends are all
             +inf (their volume involves F(inf,...,inf) = +inf, not a number the implementation is asked to produce).
             Observed: rpylib.model.levycopulamodel.volume(F, a, b) (F adapted to the generator the library hands over, as
             LevyCopulaModel.margin_tail_integral does) and an independent signed sum (iterated differences, coordinate by
@@ -89,6 +89,20 @@ Sub-checks (alphabet / oracle)
             an alphabet left with fewer than 4 letters is skipped (X3 for theta >= 3).
             Options of the margin operator: on the d=2 A8 lattice and on the first slice of the d=3 A8 lattice the volume is
             also taken through margin(F, None, d) and margin(F, [0..d-1], d) (both denote F) and compared with the signed sum.
+ degenerate every rectangle (a, b], a <= b, with at least one SPECIAL side: collapsed (a_i == b_i, also the pair a_i = -0.0,
+            b_i = 0.0; one, two or all sides; at finite points, at 0, at extreme magnitudes, at +inf and at -inf) or with the
+            lower end -inf; the other sides run over all a_i <= b_i of the letters.  Excluded: rectangles with a vertex whose
+            coordinates are all infinite (every side has an infinite end).  Observed: levycopulamodel.volume, the independent
+            signed sum and (d = 2; one slice in d = 3) the volume through margin(F, None, d) / margin(F, all, d).  Oracle: an
+            empty rectangle has volume 0 up to the rounding of the 2^d-term sum (|v| <= 4 2^d eps sum|terms|; the twin
+            vertices carry the same value with opposite signs), in particular it is not negative; a rectangle with a lower
+            end -inf is judged as in `volume`.  Letters: -inf + the alphabet with -0.0 inserted before 0.0.
+            quick: d=2 E2 = A8-based (1800 rectangles per copula) and EX2 = X2-based, every copula and twin; d=3 fresh
+            objects E3 = {-inf,-1,-0.0,0,0.2,5,inf} (19 208) and EX3 = {-1e120,-1e-200,0,1e-200,1e120,inf}, twins
+            E3S = {-inf,-1,0,0.2,inf}; thorough: d=2 A14- / X2W-based, d=3 A8- / X3-based (fresh), E3 (twins).
+            Violation keys deliberately carry no rectangle class (the runner re-runs one case per key).
+            The sub-checks margin2 (collapsed sides of the 2-d rectangles) and args (empty rectangles and a lower end -inf
+            in every form of the corners) enumerate such rectangles too.
  margin1    margin(F, [i], d)(u) == u for every i, every finite u of the (wide) alphabet including 0 and of the extreme
             letters (the operator itself evaluates F at -inf / +inf in the other coordinates: the only place -inf occurs);
             argument handed over as a list and as an array (as LevyCopulaModel.margin_tail_integral does).
@@ -152,8 +166,8 @@ sum leaves the range of normal doubles: the formula returns 0 or inf there altho
 theta = 3, F(1e-120, inf) = 0 instead of 1e-120 eta; a limitation of evaluating the closed form in double precision, reported
 but not judged); extreme magnitudes in the finite-difference part of xderiv (|prod u|^(-theta-1) overflows; the mixed difference
 of arguments of very different size is lost in rounding); histories that poke private attributes or assign parameter values
-outside theta > 0, eta in [0, 1]; FrankLevyCopula (no helper in rpylib.model.utils offers it); rectangles whose upper ends are all +inf; -inf as a rectangle end
-(other than through the margin operator); margin at u = +inf; a_i >= b_i; eps = 0 in the conditional distribution;
+outside theta > 0, eta in [0, 1]; FrankLevyCopula (no helper in rpylib.model.utils offers it); rectangles with a vertex whose coordinates are all infinite (upper ends all +inf;
+every side with an infinite end); -inf as an UPPER end; margin at u = +inf; a_i > b_i; eps = 0 in the conditional distribution;
 u in {0, 1} for the inverse; x on a half line that carries no mass (eta in {0, 1}); infinite arguments of
 x_first_derivative; argument forms the unchanged tree rejects (lists / tuples / 0-d / (1,n) arrays as the argument of a
 copula, of the conditional distribution, of the inverse or of the derivative: the signatures say np.array and the code
@@ -874,11 +888,12 @@ def _sub_degenerate(sh, case):
             lib = float(volume(fg, a, b))
             cnt += 1
             ncol, cc = _collapse_class(a, b)
-            rc = cc + ":" + _rect_class(a, b)
+            # few distinct keys on purpose (the runner re-runs one case per key): the rectangle is in the message / detail
+            rc = "extreme-magnitudes" if case["alphabet"].startswith("EX") else "moderate-magnitudes"
             tol = 4 * 2 ** d * EPS * sabs
-            results = [("levycopulamodel.volume", lib), ("signed-sum", mine)]
+            results = [("volume", lib), ("volume", mine)]
             for oname, fo in m_opts:
-                results.append((f"volume-through-margin-{oname}", float(volume(fo, a, b))))
+                results.append(("volume-through-a-margin-option", float(volume(fo, a, b))))
                 cnt += 1
             for rname, v in results:
                 if not math.isfinite(v):
@@ -949,10 +964,9 @@ def _sub_margin2(sh, case):
             rc = _rect_class(a, b)
             ncol, cc = _collapse_class(a, b)
             if ncol:
-                rc = cc + ":" + rc
                 sh.count("rectangles_margin2_empty")
                 if not (abs(lib) <= 4 * 8 * EPS * sabs and mine == 0.0):
-                    sh.violation(f"C11:margin2:{kind}:d3:volume-of-an-empty-rectangle-not-0:{ecls}:{rc}",
+                    sh.violation(f"C11:margin2:{kind}:d3:volume-of-an-empty-rectangle-not-0:{ecls}",
                                  f"{cop!r}: ({a}, {b}] is empty but the {[i, j]}-margin gives it the volume {lib!r} (signed sum {mine!r})",
                                  {"a": a, "b": b, "pair": [i, j], "library": lib, "signed_sum": mine})
                     continue
